@@ -412,6 +412,16 @@ def _cap_and_policy(prog: Program, res: Result, lb: int):
                               f"but {f2.qualname.split('.')[-2]}.{f2.name} replaces self.coordinates_domain without recomputing it: the cap index is stale, fields above max_boreholes become selectable")
             continue
         comp, how = _filtered_index_comp(fi.node, s.value)
+        if comp is None:
+            # the loop form of the same thing:  right = None; for i, f in enumerate(domain): if len(f) < cap: right = i   keeps the LAST
+            # admissible index - read as the comprehension [i for i, f in enumerate(domain) if len(f) < cap] taken at [-1]
+            lp = _keep_last_loop(fi.node, s)
+            if lp is not None:
+                comp, how = lp, "last"
+            elif isinstance(s.value, ast.Constant) and s.value.value is None and any(_keep_last_loop(fi.node, s2) is not None for s2 in cap_branch) \
+                    and any(isinstance(n_, ast.If) and isinstance(n_.test, ast.Compare) and ast.unparse(n_.test) == f"{right_name} is None" and n_.body and isinstance(n_.body[-1], ast.Raise)
+                            for n_ in ast.walk(fi.node)):
+                continue  # the 'nothing admissible yet' marker: the loop overwrites it, and a search with nothing admissible raises
         ok = False
         detail = "shape not understood"
         if comp is not None:
@@ -644,6 +654,16 @@ def _cached_cap_index(prog: Program, fi, expr: ast.expr):
         if not any(w[0] is x for x in wf_):
             wf_.append(w[0])
     return attr, sorted(wf_, key=lambda f: f.qualname), unsynced
+
+
+def _keep_last_loop(fn, s):
+    """s is  `name = <loop index>`  as the only statement under the only `if` of a for loop: the synthetic comprehension
+    [<value> for <target> in <iter> if <test>] whose last element the loop leaves in `name`; else None"""
+    for lp in ast.walk(fn):
+        if isinstance(lp, ast.For) and not lp.orelse and len(lp.body) == 1 and isinstance(lp.body[0], ast.If) and not lp.body[0].orelse \
+                and len(lp.body[0].body) == 1 and lp.body[0].body[0] is s and isinstance(s.value, ast.Name):
+            return ast.ListComp(elt=s.value, generators=[ast.comprehension(target=lp.target, iter=lp.iter, ifs=[lp.body[0].test], is_async=0)])
+    return None
 
 
 def _cap_filter_ok(fn, comp) -> tuple:
